@@ -1,5 +1,6 @@
 """C21 -- Wrap-in-dbg and add-type-annotation preserve behaviour."""
 import json
+import re
 
 from vplib import common, oracle
 from props import C19 as R
@@ -221,9 +222,14 @@ def search_annot(ctx, exe, progs):
             viol("C21:annotation-breaks-program:" + m["kind"], "the annotated program does not parse: %s" % (r1[:2],),
                  observed=out, inserted=ann)
             continue
+        # an error that was there before may mention other types now (the annotation changes inferred types): compare
+        # the errors as a multiset of message SHAPES (text in backticks blanked), not of exact texts
+        shape = lambda msg: re.sub(r"`[^`]*`", "`_`", msg)
         new_errs = list(c1)
-        for e in (c0 or []):
-            if e in new_errs:
+        old_shapes = [shape(e) for e in (c0 or [])]
+        for e in list(new_errs):
+            if shape(e) in old_shapes:
+                old_shapes.remove(shape(e))
                 new_errs.remove(e)
         if new_errs:
             viol("C21:annotation-new-check-error:" + m["kind"],
